@@ -24,7 +24,8 @@ def run(tier: str) -> int:
         # model: View(Merged(files)) = View(files) in every reachable overlay state; Merge in the protocol machine
         X.overlay_exhaustive(rep, wd, "overlay_merge_eq_view", "Spec", 5 if quick else 6, 3)
         PC.record_model(rep, wd, 7 if quick else 9, invs=["RecordsValid"], label="merge_in_protocol_model")
-        jobs = PC.merge_jobs(25 if quick else 300, seed) + PC.random_proto_jobs(15 if quick else 200, 24, seed + 9, start=30000)
+        jobs = PC.merge_jobs(25 if quick else 300, seed) + PC.random_proto_jobs(15 if quick else 200, 24, seed + 9, start=30000) + \
+            PC.cross_class_jobs(seed, start=60000)
         good, verd = [], []
         g, v = PC.run_validate(rep, wd, jobs, "merge_histories", "harness.protoworker", only=None)
         # merge-related clauses belong to C05; protocol clauses count only on merge events
